@@ -17,6 +17,7 @@ Id == [k |-> "Id"]
 Xn(n) == [k |-> "X", n |-> n]
 Dn(n) == [k |-> "Dx", n |-> n]
 SplLeaf == [k |-> "Spl", vo |-> 1, slot |-> 1]
+SplO(vo) == [k |-> "Spl", vo |-> vo, slot |-> 1]          \* a spline factor of another order
 S1(kind, t, v, o) == [k |-> kind, t |-> t, v |-> v, o |-> o]
 Neg(o) == [k |-> "Neg", o |-> o]
 B2(kind, l, r) == [k |-> kind, l |-> l, r |-> r]
@@ -50,6 +51,9 @@ Named == {Commutator,
           B2("Prod", Xn(2), B2("Sum", Dn(2), Xn(1))),
           Neg(Neg(Dn(1))),
           B2("Prod", B2("Prod", Dn(1), Xn(2)), Dn(1)),
+          \* spline factors of order 0 (as in the diffusion example) and 2
+          SplO(0), SplO(2), B2("Prod", SplO(0), Dn(1)), S1("ScalL", "T", R(-1, 2), B2("Prod", SplO(0), Dn(1))),
+          B2("Sum", Dn(2), SplO(2)), B2("Prod", Xn(1), SplO(2)), S1("SubSL", "T", RTwo, SplO(0)),
           \* higher powers of x inside expressions (binomial expansion beyond n = 3)
           B2("Prod", Xn(4), Dn(1)), B2("Sum", Xn(4), Dn(2)), S1("ScalL", "T", R(1, 2), Xn(4)),
           B2("Diff", Xn(4), B2("Prod", Xn(2), Xn(2)))}
@@ -69,7 +73,13 @@ OneVar(S, o) == SplOn(S, o, IF SupNInt(S) = 0 THEN <<>> ELSE Generic(SupNInt(S),
 TwoVar(S, o) == {OneVar(S, o)} \cup (IF SupNInt(S) = 0 THEN {} ELSE {SplOn(S, o, Generic(SupNInt(S), o, 1))})
 UnitVar(S, o) == IF SupNInt(S) = 0 THEN {SplOn(S, o, <<>>)}
                  ELSE {SplOn(S, o, UnitC(SupNInt(S), o, r, k)) : r \in 1..SupNInt(S), k \in 1..(o + 1)}
-Factors(g) == {OneVar(S, 1) : S \in SupportsOn(g)}
+RECURSIVE VoOf(_)
+VoOf(op) == CASE op.k = "Spl" -> op.vo
+              [] op.k \in {"Id", "X", "Dx"} -> -1
+              [] Bin(op) -> Max(VoOf(op.l), VoOf(op.r))
+              [] OTHER -> VoOf(op.o)
+FactorsO(g, vo) == {OneVar(S, vo) : S \in SupportsOn(g)}
+Factors(g) == FactorsO(g, 1)
 \* a factor on another grid (C08)
 ForeignFactors(g) == {OneVar(SupWhole(v), 1) : v \in GridVariants(g)}
 
@@ -87,7 +97,7 @@ Core == Leaves \cup Depth1 \cup Depth2U \cup Named
 ExtraCases(e) ==
   IF ~HasSpl(e)
   THEN {[op |-> "OpApply", tag |-> "expr", ast |-> e, a |-> OneVar(S, o), fs |-> <<>>, fshare |-> 1] : S \in SupportsOn(E4), o \in {1, 3}}
-  ELSE {[op |-> "OpApply", tag |-> "expr", ast |-> e, a |-> OneVar(S, 1), fs |-> <<OneVar(F, 1)>>, fshare |-> 1] :
+  ELSE {[op |-> "OpApply", tag |-> "expr", ast |-> e, a |-> OneVar(S, 1), fs |-> <<OneVar(F, VoOf(e))>>, fshare |-> 1] :
           S \in SupportsOn(E4), F \in {Sup(E4, 0, 4), Sup(E4, 1, 3), Sup(E4, 0, 2), Sup(E4, 2, 4)}}
 ExprCases(e) ==
   IF e \notin Core THEN ExtraCases(e) ELSE
@@ -95,9 +105,9 @@ ExprCases(e) ==
   THEN {[op |-> "OpApply", tag |-> "expr", ast |-> e, a |-> a, fs |-> <<>>, fshare |-> 1] :
           a \in UNION {UNION {TwoVar(S, o) : o \in OrdersOp} : S \in UNION {SupportsOn(g) : g \in (IF HighPower(e) THEN {E4} ELSE GridsOp)}}}
   ELSE {[op |-> "OpApply", tag |-> "expr", ast |-> e, a |-> OneVar(S, o), fs |-> <<f>>, fshare |-> sh] :
-          S \in SupportsOn(E4), o \in {0, 2}, f \in Factors(E4), sh \in {1}}
+          S \in SupportsOn(E4), o \in {0, 2}, f \in FactorsO(E4, VoOf(e)), sh \in {1}}
        \cup {[op |-> "OpApply", tag |-> "expr", ast |-> e, a |-> OneVar(S, 1), fs |-> <<f>>, fshare |-> 0] :
-               S \in {SupWhole(E4), Sup(E4, 1, 3)}, f \in {x \in Factors(E4) : x.s = 0}}
+               S \in {SupWhole(E4), Sup(E4, 1, 3)}, f \in {x \in FactorsO(E4, VoOf(e)) : x.s = 0}}
        \* factor on a logically different grid: refused iff the operand has an interval (C08)
        \cup (IF e \in {SplLeaf, B2("Prod", SplLeaf, Dn(1)), B2("Sum", Dn(2), SplLeaf), S1("ScalL", "T", RTwo, SplLeaf)}
              THEN {[op |-> "OpApply", tag |-> "foreign", ast |-> e, a |-> OneVar(S, 1), fs |-> <<f>>, fshare |-> 0] :
